@@ -93,7 +93,7 @@ pub fn run(ctx: &mut Ctx) {
         }
     }
     // computed arrays: elements are data
-    let vals = vec![json!(1), json!(0), json!("a"), json!(null), json!([]), json!({"var": "k"}), json!({"log": "LEAK"})];
+    let vals = vec![json!(1), json!(0), json!("a"), json!(null), json!([]), json!({"var": "k"}), json!({"log": "LEAK"}), json!({"==": [1]}), json!({"in": [1, 2]})];
     for n in 0..=(if ctx.tier_thorough { 4usize } else { 3usize }) {
         for t in al::tuples(&vals, n) {
             if !ctx.mine() {
